@@ -1,0 +1,16 @@
+//go:build verif
+
+package transport
+
+import (
+	"github.com/go-git/go-git/v6/plumbing"
+	"github.com/go-git/go-git/v6/plumbing/protocol/packp"
+	"github.com/go-git/go-git/v6/storage"
+)
+
+// VerifGetShallowCommits exposes getShallowCommits to the verification harness.
+func VerifGetShallowCommits(st storage.Storer, heads []plumbing.Hash, depth int) (shallows, unshallows []plumbing.Hash, err error) {
+	var upd packp.ShallowUpdate
+	err = getShallowCommits(st, heads, depth, &upd)
+	return upd.Shallows, upd.Unshallows, err
+}
